@@ -73,6 +73,7 @@ def fusion_guard(ctx, r):
     db = ctx.db
     f = db.fn("space_text", file=SPACE)
     rd = ReachingDefs(f, db)
+    r.names(f, "pc", "next", "kw1", "kw2")
     decide = db.calls_in(f, "do_space_ensured")
     r.require(len(decide) == 1, "space_text: %d calls of do_space_ensured" % len(decide))
     decide = decide[0]
